@@ -48,6 +48,44 @@ fn verif_replay() {
         println!("VERIF-OUTCOME {}", out);
         return;
     }
+    if case["driver"].as_str() == Some("buffer_size") {
+        // a configuration file whose ioParams.bufferSize is the given number goes through the real Config::load; if it is accepted,
+        // one direction of a tunnel is relayed with it (5 bytes, then the source closes)
+        let n = a["buffer_size"].as_str().unwrap_or("0").to_string();
+        let dir = std::env::temp_dir();
+        let p = dir.join(format!("verif-cfg-{}.yaml", std::process::id()));
+        std::fs::write(&p, format!("apiVersion: v1\nkind: redproxy\nlisteners: []\nconnectors: []\nrules: []\nioParams:\n  bufferSize: {}\n  useSplice: false\n", n)).unwrap();
+        let rt = tokio::runtime::Builder::new_current_thread().enable_all().build().unwrap();
+        let p2 = p.clone();
+        let out = rt.block_on(async move {
+            use tokio::io::{AsyncReadExt, AsyncWriteExt};
+            let cfg = match crate::config::Config::load(p2.to_str().unwrap()).await { Ok(c) => c, Err(e) => return serde_json::json!({"panicked": false, "accepted": false, "err": e.to_string()}) };
+            let params = cfg.io_params;
+            let (mut src_peer, src_ours) = tokio::io::duplex(4096);
+            let (dst_ours, mut dst_peer) = tokio::io::duplex(4096);
+            let (sr, _sw) = tokio::io::split(src_ours);
+            let (_dr, dw) = tokio::io::split(dst_ours);
+            let mut src = SrcHalf::new("client");
+            src.stream = Some(sr);
+            let mut dst = DstHalf::new("server");
+            dst.stream = Some(dw);
+            let stat: Arc<ContextStatistics> = Default::default();
+            let relay = tokio::spawn(async move {
+                copy_half(&params, src, dst, stat, #[cfg(feature = "metrics")] prometheus::IntCounter::new("verif_relay_bs", "x").unwrap()).await.map_err(|e| e.to_string())
+            });
+            src_peer.write_all(b"hello").await.ok();
+            tokio::time::sleep(std::time::Duration::from_millis(100)).await;
+            drop(src_peer);
+            let mut got = Vec::new();
+            let _ = tokio::time::timeout(std::time::Duration::from_millis(700), dst_peer.read_to_end(&mut got)).await;
+            let r = tokio::time::timeout(std::time::Duration::from_millis(500), relay).await;
+            let panicked = matches!(&r, Ok(Err(e)) if e.is_panic());
+            serde_json::json!({"panicked": panicked, "accepted": true, "delivered": String::from_utf8_lossy(&got), "tunnel_dead": !panicked && got != b"hello"})
+        });
+        let _ = std::fs::remove_file(&p);
+        println!("VERIF-OUTCOME {}", out);
+        return;
+    }
     if case["driver"].as_str() == Some("saturated_transfer") {
         // one direction relays a saturated stream (the source always has more than one buffer queued, the destination is drained
         // at a steady pace); on the side, once every 100 ms, the direction's idleness is asked with a period of 1 s: a direction
